@@ -64,6 +64,8 @@ pub struct TaskG {
     pub cancelled: bool,
     /// global sequence number when the current/last callback was entered
     pub cb_enter: u64,
+    /// ... and when the one before it was entered
+    pub prev_cb_enter: u64,
 }
 
 #[derive(Default)]
